@@ -95,7 +95,9 @@ C03_Credits_Step ==
       ELSE IF IsBlockEv(ev')
       THEN /\ Holding(st', r.a, r.bk) = Holding(st, r.a, r.bk)
            /\ BalOf(st', r.a, r.bk).e <= r.e
-      ELSE /\ Holding(st', r.a, r.bk) >= Holding(st, r.a, r.bk)
+      \* any other message: neither form of the holding shrinks (the only moves between
+      \* tradable and escrow a non-signer may see are the two above)
+      ELSE /\ BalOf(st', r.a, r.bk).t >= r.t
            /\ BalOf(st', r.a, r.bk).e >= r.e
 
 C03_Coins_Step ==
@@ -303,22 +305,28 @@ PrePut(s, m) ==
 C11_PutIf_Step ==
   (ev'.type = "Put" /\ ev'.dom = "spec" /\ WellFormed(ev'.m) /\ PrePut(st, ev'.m)) => ev'.ok
 
+\* "earliest start date" is the start date of the BATCH (the basket row carries a
+\* copy of it, which must agree: C11_BasketDatesMatchBatches)
+C11_BasketDatesMatchBatches ==
+  \A x \in st.bbal : HasBatchDenom(st, x.denom) => x.start = BatchByDenom(st, x.denom).start
+
 C11_OldestFirst_Step ==
   EvIs("Take") =>
     LET cs  == ev'.resp.credits
         k   == BasketByDenom(st, ev'.m.basket_denom)
         row(d) == CHOOSE x \in st.bbal : x.bid = k.id /\ x.denom = d
         has(d) == \E x \in st.bbal : x.bid = k.id /\ x.denom = d
+        startOf(d) == IF HasBatchDenom(st, d) THEN BatchByDenom(st, d).start ELSE row(d).start
         n   == Len(cs)
     IN /\ n > 0
        /\ \A i \in 1..n : has(cs[i].denom) /\ cs[i].amt > 0 /\ cs[i].amt <= row(cs[i].denom).amt
        \* oldest first along the released list
-       /\ \A i, j \in 1..n : i < j => row(cs[i].denom).start <= row(cs[j].denom).start
+       /\ \A i, j \in 1..n : i < j => startOf(cs[i].denom) <= startOf(cs[j].denom)
        \* every batch before the last is drained completely
        /\ \A i \in 1..(n - 1) : cs[i].amt = row(cs[i].denom).amt
        \* nothing older than a touched batch stays behind
        /\ \A x \in st'.bbal : \A i \in 1..n :
-            (x.bid = k.id /\ x.denom # cs[n].denom) => x.start >= row(cs[i].denom).start
+            (x.bid = k.id /\ x.denom # cs[n].denom) => startOf(x.denom) >= startOf(cs[i].denom)
        \* the basket rows change exactly by what was released
        /\ \A x \in st.bbal :
             LET rel == SumOver({i \in 1..n : x.bid = k.id /\ cs[i].denom = x.denom}, LAMBDA i : cs[i].amt) IN
